@@ -101,3 +101,10 @@ package vs
 //@ loop 2 invariant [no-value-failed-so-far] imp(calls(v.execTemplateFunc) > 0, result_of(v.execTemplateFunc, 1) == nil)
 //@ ensures [a-failing-value-is-an-error] imp(calls(v.execTemplateFunc) > 0 && result_of(v.execTemplateFunc, 1) != nil, result != nil)
 //@ ensures [a-failing-nested-map-is-an-error] imp(calls(v.recursiveCompute) > 0 && result_of(v.recursiveCompute, 0) != nil, result != nil)
+
+//@ func (v *VariableSourceJSON) GetVariables
+//@ props C15
+//@ nilsafe
+//@ requires v != nil
+//@ modifies nothing
+//@ ensures result == v.store
